@@ -111,6 +111,13 @@ def run_case(case):
     met2 = getattr(MM.Metric, "DSC" if metric != "DSC" else "IOU")
     sc2 = [[z3.Real("s2_%d_%d" % (r, p)) for p in range(Pn)] for r in range(R)]
     base += [z3.And(sc2[r][p] > 0, sc2[r][p] <= 1) for r in range(R) for p in range(Pn)]
+    if case.get("reuse"):
+        # the second metric is not independent of the first on real masks (DSC = 2 IoU / (1 + IoU)): in the reuse case the first scores range
+        # over a catalogue of IoU values and the second metric's score is the Dice value of the same masks (keeps the query linear)
+        cat = [Fraction(1, 5), Fraction(1, 4), Fraction(1, 3), Fraction(1, 2), Fraction(2, 3), Fraction(1, 1)]
+        for r in range(R):
+            for p in range(Pn):
+                base.append(z3.Or([z3.And(sc[r][p] == z3.Q(a.numerator, a.denominator), sc2[r][p] == z3.Q(2 * a.numerator, a.denominator + a.numerator)) for a in cat]))
 
     def free_metric2(ref_mask, pred_mask, *a, **k):
         r = [i for i, c in enumerate(ref_mask.cells) if c is True]
